@@ -2,6 +2,7 @@
 // PRELUDE (assumptions A1-A4): stand-ins for dependency types.  Everything in here is TRUSTED, not proved.
 // The mechanical scan (`vf scan`) lists each `external_body` / `assume_specification` / `axiom` by name.
 // ================================================================================================
+#![feature(allocator_api)]
 #![allow(unused_imports, unused_variables, dead_code, unused_mut, unused_assignments, non_snake_case, unused_parens, unreachable_code, unreachable_patterns)]
 use vstd::prelude::*;
 verus! {
